@@ -312,6 +312,35 @@ Section WithSerialize.
         end
     end.
 
+  (* the same generated method body for a SUBSCRIPTION: the variables dict goes to execute_ws ->
+     _send_subscribe, which puts `_convert_dict_to_json_serializable(variables)` into the graphql-transport-ws
+     subscribe payload only `if variables:` (a payload without the key counts as no variables) *)
+  Definition call_subscribe (n : nat) (S : schema) (snake : bool) (nm : string -> string) (vs : list vardef)
+             (kwargs : list (string * pyval)) : outcome :=
+    match generate S nm vs with
+    | None => GenError
+    | Some g =>
+        if negb (sig_ok g) then PySyntaxError else
+        match bind (g_params g) kwargs with
+        | None => PyMissingArg
+        | Some env0 =>
+            match assoc "gql" env0 with
+            | Some _ => PyNotCallable
+            | None =>
+                let qv := hd "query" (variable_names g) in
+                let env1 := (qv, query_text) :: env0 in
+                match eval_dict env1 (g_dict g) with
+                | None => PyNotCallable
+                | Some [] => Sent []
+                | Some d => match convert_dict n S snake d with
+                            | Some kv => Sent kv
+                            | None => PyNotSerializable
+                            end
+                end
+            end
+        end
+    end.
+
   (* ---- schema-valid Python values (what the caller may pass for a position of type t) ---- *)
   Definition typed_builtin (b : builtin) (v : pyval) : bool :=
     match b, v with
@@ -584,6 +613,7 @@ Definition run_args (e : sexp) : sexp :=
       match dB sn, schema_of_sexp sch, dList vardef_of_sexp vs, kwargs_of_sexp kw with
       | Some snake, Some Sc, Some vds, Some kwargs =>
           L [sOutcome (call_method ser_inst FUEL Sc snake (naming Sc snake vds) vds kwargs);
+             sOutcome (call_subscribe ser_inst FUEL Sc snake (naming Sc snake vds) vds kwargs);
              sB (typed_call FUEL Sc snake (naming Sc snake vds) vds kwargs);
              sOptB (intended_vars ser_inst FUEL Sc snake (naming Sc snake vds) vds kwargs);
              sB (forallb (fun p => constructed FUEL Sc snake (snd p)) kwargs)]
